@@ -16,13 +16,15 @@ def main(tier):
                          label=f'ReferenceDatabase load + query: {ng} genomes, signature file with up to {slots} IDs',
                          bounds={'genomes': ng, 'signature IDs': f'every arrangement of up to {slots} distinct IDs (genome IDs in any order, up to 2 unrelated IDs, genomes possibly missing)',
                                  'id_attr': 'key / genbank_acc / refseq_acc / ncbi_id / None / an unknown name'}))
+    jobs.append(dict(path=H, fname='_c04_files', params={'files': 1}, timeout=600, self_reach=True, unblock=['sqlite3.connect', 'sqlite3.connect/handle'], label='load_from_dir on real SQLite + HDF5 files, real query',
+                     bounds={'genomes': 3, 'signature order': 'all 6 permutations', 'unrelated signature': 'none or at each of 4 positions', 'id_attr': 'all four (string and integer IDs)'}))
     xprop.run_jobs(run, jobs, rung=tier)
     xprop.note_sources(run, ['src/gambit/db/refdb.py', 'src/gambit/query.py', 'src/gambit/db/models.py'])
     run.bounds = {'genome set': '2..4 genomes in an in-memory SQLite database (plus one genome outside the set)', 'signature file': 'IDs in every order with unrelated extras / missing genomes',
                   'identifier attribute': 'all four, None, invalid', 'directory': '2^7 content subsets'}
     run.stubs = ['signature file -> object with ids + metadata (reading IDs out of HDF5 is outside)', 'jaccarddist_matrix -> tags each column with the index of the signature used',
                  'get_result_item -> records the distance row handed to classification', 'Path.iterdir -> chosen file names']
-    run.outside = ['reading IDs from a real HDF5 file, the SQLite file format', 'duplicate IDs in the signature file (the property assumes unique IDs)']
+    run.outside = ['HDF5 / SQLite files beyond the pooled directories (3 genomes, 120 arrangements)', 'duplicate IDs in the signature file (the property assumes unique IDs)']
     run.assumptions = ['the solver enumerates the finite arrangement space through fork_int; the real code (SQLAlchemy queries included) runs natively on each cell']
     return run.finish(
         rule='one CrossHair condition for loading/querying per (genome count, ID slots) and one for directory contents; non-trivial = confirmed over all cells '
